@@ -32,9 +32,14 @@ def build_demo(demo, include, out, ndebug):
         libs += " /usr/lib/x86_64-linux-gnu/libopenblas.so"
     if "adaptors/fftw" in src:
         libs += " -lfftw3"
+    if "boost/archive" in src or "boost/serialization" in src:
+        libs += " -lboost_serialization"
+    cxx = "g++"
+    if "adaptors/mpi" in src or "<mpi.h>" in src:
+        cxx = "mpicxx"
     if "adaptors/lapack" in src:
         libs += " -llapack /usr/lib/x86_64-linux-gnu/libopenblas.so"
-    r = sh("g++ -std=c++17 %s -I%s %s -o %s%s 2>&1 | grep -E 'error' | head -5" % ("-DNDEBUG" if ndebug else "", include, demo, out, libs))
+    r = sh("%s -std=c++17 %s -I%s %s -o %s%s 2>&1 | grep -E 'error' | head -5" % (cxx, "-DNDEBUG" if ndebug else "", include, demo, out, libs))
     if not os.path.exists(out):
         return None, r.stdout
     r = sh("%s" % out, timeout=120)
@@ -94,7 +99,7 @@ def confirm(srcdir, sid, prop):
     return 0
 
 
-ALL = ["C01", "C02", "C03", "C04", "C05", "C06", "C07", "C08", "C09", "C10", "C12", "C13", "C16", "C19", "C20"]
+ALL = ["C01", "C02", "C03", "C04", "C05", "C06", "C07", "C08", "C09", "C10", "C11", "C12", "C13", "C16", "C17", "C18", "C19", "C20"]
 
 
 def detect(sid, checks):
